@@ -35,6 +35,7 @@ def main():
     ap = argparse.ArgumentParser()
     ap.add_argument('--workers', type=int, default=3)
     ap.add_argument('--only', default='*')
+    ap.add_argument('--seed', default='1')
     ap.add_argument('--out', default=os.path.join(VERIF, '.work', 'recheck_seeds.jsonl'))
     a = ap.parse_args()
     os.makedirs(os.path.dirname(a.out), exist_ok=True)
@@ -66,7 +67,7 @@ def main():
             for c in checks:
                 t0 = time.time()
                 rc, out = sh([PY, os.path.join(VERIF, 'pbt', 'run.py'), c, '--tier', 'quick', '--no-evidence'],
-                             env=dict(os.environ, BYCYCLE_VERIF_REPO=wt, VERIF_REPLAY_DIR=os.path.join(VERIF, '.work', 'recheck-replays'), VERIF_SEED='1'))
+                             env=dict(os.environ, BYCYCLE_VERIF_REPO=wt, VERIF_REPLAY_DIR=os.path.join(VERIF, '.work', 'recheck-replays'), VERIF_SEED=a.seed))
                 clauses = sorted(set(l.split('violated clause ')[1].strip() for l in out.splitlines() if 'violated clause' in l))
                 res['checks'].append({'check': c, 'exit': rc, 'seconds': round(time.time() - t0, 1), 'clauses': clauses[:2]})
                 if rc == 1:
